@@ -21,7 +21,7 @@ func init() {
 		skeletonExplain(c, "C09 (generic interfaces keep type parameters, constraints, instances): on every skeleton with 1..2 (thorough: 3) type parameters — the mock type declares the same number of type parameters, in order, with the interface's spelling and an identical constraint; every receiver lists them in order; *Mock[T...] implements I[T...] for the mock's own type parameters (hence for every admissible argument list); the self-check line type-checks. Every rendering of a go/types type that reaches the output must go through the file's qualifier (G-RENDER).")
 		c.Run.Floor("K-GENERIC/typeparams", 1)
 		c.Run.Floor("K-GENERIC/receiver", 2)
-		c.RunSkeletons(SkelOpts{Rules: []string{"K-GENERIC", "K-IMPL", "K-DECLS/ensure", "K-TYPE", "G-DATA/typeparams"}, Notes: []string{"G-RENDER"}, TypeErrIsOwn: true,
+		c.RunSkeletons(SkelOpts{Rules: []string{"K-GENERIC", "K-IMPL", "K-DECLS/ensure", "K-TYPE", "G-DATA/typeparams", "G-SCOPE/typeparams-only", "G-DATA/name-final", "G-MOCK/qualifier-final"}, Notes: []string{"G-RENDER"}, TypeErrIsOwn: true,
 			Env: func(e tmpl.Env) bool {
 				for _, m := range e.Mocks {
 					if len(m.TypeParams) > 0 {
